@@ -58,6 +58,35 @@ fn base() -> JwtCredentialValidationOptions {
 
 fn main() {
   std::panic::set_hook(Box::new(|_| {}));
+  // "the credential is structurally well formed" (Credential::check_structure: iterator adapters, outside the verifier)
+  w("vc_structure_rules", || {
+    let mk = |ctx: &str, types: &str, subject: &str, with_sub: bool| -> Jwt {
+      let sub = if with_sub { r#""sub":"did:example:subject","# } else { "" };
+      jwt("", &format!(r#"{{ {sub} "iss":"{DID}", "nbf": 1500, "vc": {{ "@context":{ctx},"type":{types},"credentialSubject":{subject} }} }}"#))
+    };
+    let base_ctx = r#""https://www.w3.org/2018/credentials/v1""#;
+    let cases: Vec<(&str, Jwt, bool)> = vec![
+      ("well formed", mk(base_ctx, r#"["VerifiableCredential"]"#, r#"{"name":"x"}"#, true), true),
+      ("base context first of several", mk(&format!(r#"[{base_ctx},"https://example.com/ctx"]"#), r#"["VerifiableCredential","Extra"]"#, r#"{"name":"x"}"#, true), true),
+      ("subject with only an id", mk(base_ctx, r#"["VerifiableCredential"]"#, r#"{}"#, true), true),
+      ("base context missing", mk(r#""https://example.com/ctx""#, r#"["VerifiableCredential"]"#, r#"{"name":"x"}"#, true), false),
+      ("base context not first", mk(&format!(r#"["https://example.com/ctx",{base_ctx}]"#), r#"["VerifiableCredential"]"#, r#"{"name":"x"}"#, true), false),
+      ("base type missing", mk(base_ctx, r#"["Extra"]"#, r#"{"name":"x"}"#, true), false),
+      ("base type in another case", mk(base_ctx, r#"["verifiablecredential"]"#, r#"{"name":"x"}"#, true), false),
+      ("empty subject object without id", mk(base_ctx, r#"["VerifiableCredential"]"#, r#"{}"#, false), false),
+    ];
+    for (what, j, want) in &cases {
+      let got = run(j, &[doc()], &base(), FailFast::FirstError);
+      if got.is_ok() != *want { return Err(format!("credential with {what}: accepted = {}, expected {want} ({got:?})", got.is_ok())); }
+    }
+    // all errors requested: a malformed AND expired credential reports both conditions
+    let both = jwt("", &format!(r#"{{ "sub":"did:example:subject", "iss":"{DID}", "nbf": 1500, "exp": 10, "vc": {{ "@context":{base_ctx},"type":["Extra"],"credentialSubject":{{"name":"x"}} }} }}"#));
+    match run(&both, &[doc()], &base(), FailFast::AllErrors) {
+      Ok(()) => return Err("malformed and expired credential accepted".into()),
+      Err(es) => if es.len() < 2 || !es.iter().any(|e| e.contains("Structure") || e.contains("structure")) || !es.iter().any(|e| e.contains("Expir") || e.contains("expir")) { return Err(format!("all errors requested, got {es:?}")); }
+    }
+    Ok(())
+  });
   w("vc_issuer_must_equal_kid_did", || {
     if !ok(&jwt("", &claims(DID, "", "")), &base()) { return Err("plain credential rejected".into()); }
     // issuer differs from the DID of the verifying method, although that method's document is trusted too
